@@ -7,6 +7,7 @@
 package main
 
 import (
+	"encoding/json"
 	"flag"
 	"fmt"
 	"os"
@@ -107,6 +108,29 @@ func main() {
 		os.Exit(core.RunReplay(os.Args[2]))
 	case "stages":
 		os.Exit(core.RunStages(os.Args[2]))
+	case "show": // goatsim show <ID> <seed> <unit> [tier]: print every plan of a unit with its verdict and history
+		e := core.Lookup(os.Args[2])
+		seed, _ := strconv.ParseUint(os.Args[3], 10, 64)
+		unit, _ := strconv.Atoi(os.Args[4])
+		tier := "quick"
+		if len(os.Args) > 5 {
+			tier = os.Args[5]
+		}
+		n := 0
+		e.RunUnit(seed, tier, unit, func(plan any) *core.Result {
+			r := core.SafeExecute(e, plan, true)
+			if n < 3 {
+				b, _ := json.Marshal(plan)
+				fmt.Printf("--- plan %d: %s\n", n, b)
+				for _, l := range r.History.Tail(60) {
+					fmt.Println("   ", l)
+				}
+				fmt.Printf("    abstract=%s nontrivial=%v violations=%v counters=%v\n", r.Abstract, r.Nontrivial, r.Violations, r.Counters)
+			}
+			n++
+			return r
+		})
+		fmt.Println("plans in unit:", n)
 	case "list":
 		for _, id := range core.Engines() {
 			e := core.Lookup(id)
